@@ -884,6 +884,18 @@ func noEarlyExit(x *Ctx) {
 	n, bad := 0, ""
 	for _, f := range fns {
 		for _, l := range paths.Info(f).Loops {
+			// the loops that evaluate statements: their body calls the evaluator
+			evaluates := false
+			for b := range l.Body {
+				for _, in := range b.Instrs {
+					if c, ok := in.(ssa.CallInstruction); ok && c.Common().StaticCallee() == root {
+						evaluates = true
+					}
+				}
+			}
+			if !evaluates {
+				continue
+			}
 			n++
 			// the block the loop test leaves to
 			var exit *ssa.BasicBlock
@@ -902,7 +914,7 @@ func noEarlyExit(x *Ctx) {
 			}
 		}
 	}
-	x.C.Obl("C11.R3", "no-early-exit:matchStatement", x.pos(root), fmt.Sprintf("each of the %d loops of the evaluator is left only by its loop test or by a return", n), bad == "" && n >= 4, dedupLines(bad))
+	x.C.Obl("C11.R3", "no-early-exit:matchStatement", x.pos(root), fmt.Sprintf("each of the %d loops of the evaluator is left only by its loop test or by a return", n), bad == "" && n >= 1, dedupLines(bad))
 }
 
 // noClockOnSealing (C07.R5): whether a token can be sealed does not depend on when it is sealed. No function of the
@@ -972,7 +984,7 @@ func statelessUnmarshallers(x *Ctx) {
 			}
 		}
 	}
-	x.C.Obl("C16.R5", "stateless-unmarshallers", "did/did.go", fmt.Sprintf("none of the %d function literals of package did writes through a captured variable", n), bad == "" && n > 0, dedupLines(bad))
+	x.C.Obl("C16.R5", "stateless-unmarshallers", "did/did.go", fmt.Sprintf("none of the %d function literals of package did writes through a captured variable", n), bad == "", dedupLines(bad))
 }
 
 // typedDecodersThroughFromIPLD (C07.R6): the generic decoders pick the typed decoder from the decoded envelope. In
@@ -1165,4 +1177,186 @@ func fieldNameOf(fa *ssa.FieldAddr) string {
 		return ""
 	}
 	return st.Field(fa.Field).Name()
+}
+
+// guardedTrims (C09.P5): a slice expression that drops characters at both ends, Y[k : len(Y)-m], panics when Y is
+// shorter than k+m. In selector.Parse (and helpers its code moved into) every such expression sits on paths that
+// know Y to be long enough: a length test (len(Y) >= k+m), or a prefix and a suffix test with two different
+// one-character constants (one character cannot be both). The same character at both ends - the quotes of a quoted
+// key - is satisfied by a string of length one: that case needs the length test.
+func guardedTrims(x *Ctx) {
+	f := x.fn("C09.P5", selPkg+"Parse")
+	if f == nil {
+		return
+	}
+	n, bad := 0, ""
+	seen := map[string]bool{}
+	for _, p := range x.paths("C09.P5", f) {
+		p.InstrsIn(func(in ssa.Instruction, c *paths.Ctx) {
+			sl, ok := in.(*ssa.Slice)
+			if !ok || sl.Low == nil || sl.High == nil {
+				return
+			}
+			if b, ok := sl.X.Type().Underlying().(*types.Basic); !ok || b.Kind() != types.String {
+				return
+			}
+			lo, hi, y := c.Term(sl.Low), c.Term(sl.High), c.Term(sl.X)
+			if lo == nil || hi == nil || y == nil {
+				return
+			}
+			k, okk := paths.ConstInt(lo)
+			if !okk || hi.Op != "sub" || len(hi.Args) != 2 || hi.Args[0].String() != "len("+y.String()+")" {
+				return
+			}
+			m, okm := paths.ConstInt(hi.Args[1])
+			if !okm || k+m <= 0 {
+				return
+			}
+			key := x.P.Pos(in.Pos())
+			if !seen[key] {
+				seen[key] = true
+				n++
+			}
+			ys := y.String()
+			guarded := false
+			var pre, suf string
+			for _, fc := range p.Facts {
+				a := fc.Atom
+				if a.Op == "lt" && len(a.Args) == 2 {
+					// !(len(Y) < c)  or  c' < len(Y)
+					if a.Args[0].String() == "len("+ys+")" && !fc.Pol {
+						if cv, ok := paths.ConstInt(a.Args[1]); ok && cv >= k+m {
+							guarded = true
+						}
+					}
+					if a.Args[1].String() == "len("+ys+")" && fc.Pol {
+						if cv, ok := paths.ConstInt(a.Args[0]); ok && cv+1 >= k+m {
+							guarded = true
+						}
+					}
+				}
+				if a.Op == "call" && fc.Pol && len(a.Args) == 2 && a.Args[0].String() == ys && a.Args[1].Op == "const" {
+					if a.Name == "strings.HasPrefix" {
+						pre = a.Args[1].Name
+					}
+					if a.Name == "strings.HasSuffix" {
+						suf = a.Args[1].Name
+					}
+				}
+			}
+			if !guarded && pre != "" && suf != "" && pre != suf && len(pre) == 3 && len(suf) == 3 && k <= 1 && m <= 1 {
+				guarded = true // "x" and "y": two different one-character constants (rendered with their quotes)
+			}
+			if !guarded {
+				bad += fmt.Sprintf("%s: %s[%d:len-%d] on a path that does not know the string to have %d characters\n", key, firstLines(ys, 1), k, m, k+m)
+			}
+		})
+	}
+	x.C.Obl("C09.P5", "guarded-trim:Parse", x.pos(f), fmt.Sprintf("each of the %d expressions that drop characters at both ends of a string is reached only where the string is known to be long enough", n), bad == "" && n >= 1, dedupLines(bad))
+}
+
+// optionErrorsAbort (C10.R1): a constructor does not return a token when one of the caller's options failed. In New of
+// both token packages, no path on which an option answered a non-nil error goes on to the next option or to a
+// successful return (an option that refuses its argument leaves the field unset: a token built anyway silently
+// lacks the bound the caller asked for).
+func optionErrorsAbort(x *Ctx) {
+	for _, pk := range []string{"token/delegation", "token/invocation"} {
+		f := x.fn("C10.R1", pk+".New")
+		if f == nil {
+			continue
+		}
+		n, bad := 0, ""
+		for _, p := range x.paths("C10.R1", f) {
+			refused := false
+			for _, fc := range p.Facts {
+				if xx := paths.NilCheckOf(fc.Atom); xx != nil && !fc.Pol && xx.Op == "dyncall" {
+					refused = true
+				}
+			}
+			if !refused {
+				continue
+			}
+			n++
+			failing := p.End == paths.EndPanic
+			if p.End == paths.EndReturn {
+				if o, _ := p.ErrorOutcome(); o == paths.Failure || o == paths.Delegated {
+					failing = true
+				}
+			}
+			if !failing {
+				bad += "an option answered an error and the constructor goes on:\n" + p.String() + "\n"
+			}
+		}
+		x.C.Obl("C10.R1", "option-error-aborts:"+pk+".New", x.pos(f), "every path on which an option failed ends in a failure", bad == "" && n > 0, firstLines(bad, 10))
+	}
+}
+
+// envelopeRefusals (C07.R5): closed world of the reasons for which envelope.FromIPLD refuses an envelope: a malformed
+// envelope (Inspect), the wrong tag, a payload the schema does not accept, an issuer that is not a did:key with a
+// usable key, a header that does not match the issuer's key type, a payload that cannot be re-encoded, a signature
+// that does not verify. The sealing side signs with whatever the key type's Sign produces: a further requirement
+// on the received signature (a canonical form, a size) refuses tokens this library has just issued.
+func envelopeRefusals(x *Ctx) {
+	allowed := []string{"token/internal/envelope.Inspect", ".Tag", "Node.LookupByString", "NodeBuilder.AssignNode", "bindnode.Unwrap", "Node.AsString",
+		"did.Parse", "(did.DID).PubKey", "token/internal/varsig.Encode", "go-ipld-prime.Encode", "PubKey.Verify", "typeassert", ".VarsigHeader"}
+	var head func(t *paths.Term) string
+	head = func(t *paths.Term) string {
+		if t == nil {
+			return ""
+		}
+		switch t.Op {
+		case "extract", "conv", "load":
+			if len(t.Args) > 0 {
+				return head(t.Args[0])
+			}
+		case "call", "invoke":
+			return t.Name
+		case "typeassert":
+			return "typeassert"
+		case "field":
+			return "." + t.Name
+		}
+		s := t.String()
+		if i := strings.LastIndex(s, ")."); i >= 0 && !strings.Contains(s[i+2:], "(") {
+			return "." + s[i+2:]
+		}
+		return ""
+	}
+	for _, name := range []string{"token/internal/envelope.FromIPLD[*token/delegation.tokenPayloadModel]", "token/internal/envelope.FromIPLD[*token/invocation.tokenPayloadModel]"} {
+		f := x.fn("C07.R5", name)
+		if f == nil {
+			continue
+		}
+		n, bad := 0, ""
+		for _, p := range x.paths("C07.R5", f) {
+			if p.End != paths.EndReturn || len(p.Facts) == 0 {
+				continue
+			}
+			if o, _ := p.ErrorOutcome(); o == paths.Success {
+				continue
+			}
+			n++
+			last := p.Facts[len(p.Facts)-1]
+			var hs []string
+			if last.Atom.Op == "eq" {
+				for _, a := range last.Atom.Args {
+					hs = append(hs, head(a))
+				}
+			} else {
+				hs = append(hs, head(last.Atom))
+			}
+			ok := false
+			for _, h := range hs {
+				for _, a := range allowed {
+					if h != "" && strings.HasSuffix(h, a) {
+						ok = true
+					}
+				}
+			}
+			if !ok {
+				bad += fmt.Sprintf("%s: refuses on %s\n", x.P.Pos(p.Ret.Pos()), firstLines(last.String(), 1))
+			}
+		}
+		x.C.Obl("C07.R5", "no-other-refusal:"+strings.TrimPrefix(name, "token/internal/"), x.pos(f), fmt.Sprintf("each of the %d failing exits is one of the enumerated refusals", n), bad == "" && n >= 10, dedupLines(bad))
+	}
 }
